@@ -17,6 +17,7 @@ package main
 
 import (
 	"fmt"
+	"math"
 	"math/rand"
 	"strconv"
 	"strings"
@@ -84,7 +85,7 @@ func (s *rgState) put(topics, id string) {
 		}
 		raw = string(unhx(id))
 	}
-	s.log = append(s.log, rgEnt{id: raw, exp: s.now + s.ttl})
+	s.log = append(s.log, rgEnt{id: raw, exp: satAdd(s.now, s.ttl)})
 	s.issued = append(s.issued, raw)
 	s.accepted++
 	if !s.valid && len(s.log) > s.n {
@@ -504,7 +505,9 @@ func (s *rgState) wrapScenario(rng *rand.Rand, L int) {
 // slots: the case will run with the slot report (C18), whose size grows with buffer length x ops:
 // fewer and smaller big bursts.
 func genValidHistory(rng *rand.Rand, thorough bool, forceAuto int, slots bool) string {
-	ttl := pick(rng, int64(1), 2, 5, 10, 100, 1000, 1<<40)
+	// (the last two: "keep for ever" — the largest Duration — and 250 years: expiry instants past the year 2262, where
+	// a Time no longer fits a count of nanoseconds since 1970)
+	ttl := pick(rng, int64(1), 2, 5, 10, 100, 1000, 1<<40, 1<<40, math.MaxInt64, 7884000000000000000)
 	ttlArg := ttl
 	if rng.Intn(100) < 2 {
 		ttlArg = pick(rng, int64(0), -5)
@@ -512,7 +515,7 @@ func genValidHistory(rng *rand.Rand, thorough bool, forceAuto int, slots bool) s
 	gArg := "d"
 	gci := ttl / 4
 	if rng.Intn(8) != 0 {
-		gci = pick(rng, 0, 0, -1, 1, ttl/2, ttl, 2*ttl, 10*ttl)
+		gci = pick(rng, 0, 0, -1, 1, ttl/2, ttl, satMul(2, ttl), satMul(10, ttl))
 		gArg = strconv.FormatInt(gci, 10)
 	}
 	auto := rng.Intn(2) == 0
@@ -906,4 +909,18 @@ func init() {
 	generators["C08"] = genC08
 	generators["C09"] = genC09
 	generators["C18"] = genC18
+}
+
+func satAdd(a, b int64) int64 {
+	if b > 0 && a > math.MaxInt64-b {
+		return math.MaxInt64
+	}
+	return a + b
+}
+
+func satMul(k, a int64) int64 {
+	if a > math.MaxInt64/k {
+		return math.MaxInt64
+	}
+	return k * a
 }
